@@ -99,8 +99,9 @@ structure EigInfo (K : Type*) where
   absIm : K
   norm : K
 
-/-- `in_plane = np.where(norms > ERROR_THRESHOLD, 0, 1)` -/
-def EigInfo.inPlane (ε : K) (e : EigInfo K) : ℕ := if e.norm > ε then 0 else 1
+/-- `in_plane = np.where((norms > ERROR_THRESHOLD) | (|Im λ| > ERROR_THRESHOLD), 0, 1)` (repaired:
+eigenvectors of non-real eigenvalues are not points of real hyperbolic space) -/
+def EigInfo.inPlane (ε : K) (e : EigInfo K) : ℕ := if e.norm > ε ∨ e.absIm > ε then 0 else 1
 
 /-- the `np.lexsort` key (last key primary): `(in_plane, -|Im λ|, |λ|)`, compared
 lexicographically -/
